@@ -20,7 +20,7 @@ var c01Path = reg("C01", "c01-path", checkEvalCase)
 var c01Laws = reg("C01", "c01-laws", checkC01Laws)
 
 func docCfg() xmodel.GenCfg {
-	return xmodel.GenCfg{MaxDepth: 4, MaxKids: 3, MaxTop: 2, Forest: true, Wide: true, Undeclare: true}
+	return xmodel.GenCfg{MaxDepth: 4, MaxKids: 3, MaxTop: 2, Forest: true, Wide: true, Undeclare: true, AllowBig: thorough()}
 }
 
 // genBindings draws prefix bindings for queries over generated documents:
